@@ -1,9 +1,20 @@
 /-
 C01 — emitted text is well-formed OpenSCAD with the same shape as the tree.
+
+The theorems are about `Scad.emit` / `emitAll` of Model/Scad.lean (the model of `impl Display for
+Scad`, tied to the Rust code by the correspondence run of this check) and the parser of
+Spec/OpenScad.lean (OpenSCAD's module-instantiation grammar).  They hold for every tree, of any
+depth and fan-out, and every list of trees.  Proofs of the consumption lemmas are in
+Lemmas/Parser.lean.
+
+The number type `ν` stands for the finite numbers; the one assumption on its printer,
+`hnum : ∀ x, IsNumeral (showNum x)`, says that a finite number prints as `-?digits(.digits)?`,
+which is what Rust's `Display for f64` does (trusted, and exercised by every case of the
+correspondence run: a number printed in any other form makes the driver's parse fail).
 -/
-import ScadVerif.Spec.OpenScadBind
+import ScadVerif.Lemmas.Parser
 namespace ScadVerif.C01
-open ScadVerif ScadVerif.Spec
+open ScadVerif ScadVerif.Spec ScadVerif.ParserLemmas
 
 variable {ν : Type} (showNum : ν → List Char)
 
@@ -14,5 +25,105 @@ theorem emitAll_append (a b : List (Scad ν)) :
 theorem emitAll_cons (t : Scad ν) (ts : List (Scad ν)) :
     emitAll showNum (t :: ts) = t.emit showNum ++ emitAll showNum ts := by
   simp [emitAll]
+
+/- The trees the property quantifies over: primitives have no children, operators and transforms
+have any number (including none); every node prints a call (a `Color`/`Offset` node built with no
+alternative at all prints nothing and is excluded); strings are Unicode scalar values without NUL. -/
+mutual
+def WellFormed : Scad ν → Prop
+  | .mk op cs =>
+    (op.header showNum).isSome = true ∧ (∀ s ∈ op.strings, NoNul s) ∧
+      (op.isPrimitive = true → cs = .nil) ∧ WellFormedList cs
+def WellFormedList : ScadList ν → Prop
+  | .nil => True
+  | .cons h t => WellFormed h ∧ WellFormedList t
+end
+
+/- the shape of a tree: the call name at every node and the children in order -/
+mutual
+def treeShape : Scad ν → Shape
+  | .mk op cs => .node ((op.header showNum).map (·.name) |>.getD []) (treeShapes cs)
+def treeShapes : ScadList ν → List Shape
+  | .nil => []
+  | .cons h t => treeShape h :: treeShapes t
+end
+
+section
+variable (hnum : ∀ x, IsNumeral (showNum x) = true)
+include hnum
+
+mutual
+theorem treeOK_of_wellFormed : (t : Scad ν) → WellFormed showNum t → TreeOK showNum t
+  | .mk op cs, ⟨hh, hs, hp, hcs⟩ => by
+    refine ⟨?_, hp, treesOK_of_wellFormed cs hcs⟩
+    cases hop : op.header showNum with
+    | none => rw [hop] at hh; simp at hh
+    | some h => exact ⟨h, rfl, header_ok showNum hnum op hs h hop⟩
+theorem treesOK_of_wellFormed : (cs : ScadList ν) → WellFormedList showNum cs → TreesOK showNum cs
+  | .nil, _ => True.intro
+  | .cons h t, ⟨h1, h2⟩ => ⟨treeOK_of_wellFormed h h1, treesOK_of_wellFormed t h2⟩
+end
+
+/-- **C01, sequences.** The text emitted for any list of well-formed trees parses under OpenSCAD's
+grammar as exactly that many statements, the `i`-th being the statement form of the `i`-th tree. -/
+theorem emitAll_parses (ts : List (Scad ν)) (hwf : ∀ t ∈ ts, WellFormed showNum t) :
+    parseProgram (emitAll showNum ts) = some (ts.map (toStmt showNum)) :=
+  parseProgram_emitAll showNum ts fun t ht => treeOK_of_wellFormed showNum hnum t (hwf t ht)
+
+/-- **C01, one tree.** The emitted text is exactly one complete statement. -/
+theorem emit_parses (t : Scad ν) (hwf : WellFormed showNum t) :
+    parseProgram (t.emit showNum) = some [toStmt showNum t] := by
+  have := emitAll_parses showNum hnum [t] (by simpa using hwf)
+  simpa [emitAll] using this
+
+/-- … and a statement is followed by nothing but the line end: parsing stops exactly there, whatever
+comes next. -/
+theorem emit_consumed_exactly (t : Scad ν) (hwf : WellFormed showNum t) (rest : List Char) :
+    pStmt ((t.emit showNum ++ rest).length + 1) (t.emit showNum ++ rest) =
+      some (toStmt showNum t, '\n' :: rest) := by
+  apply pStmt_pieces showNum t rest _ (treeOK_of_wellFormed showNum hnum t hwf)
+  have := tsize_le showNum t (treeOK_of_wellFormed showNum hnum t hwf)
+  simp only [Scad.emit, List.length_append]; omega
+omit hnum
+
+mutual
+/-- **C01, shape.** The parsed statement has the same call at every node and the same children in the
+same order as the tree; a block is present exactly at the non-primitive nodes. -/
+theorem shape_preserved : (t : Scad ν) → WellFormed showNum t →
+    (toStmt showNum t).shape = treeShape showNum t
+  | .mk op cs, ⟨hh, _, hp, hcs⟩ => by
+    cases hop : op.header showNum with
+    | none => rw [hop] at hh; simp at hh
+    | some h =>
+      cases hprim : op.isPrimitive with
+      | true =>
+        have := hp hprim; subst this
+        simp [toStmt, hop, hprim, Stmt.shape, treeShape, treeShapes]
+      | false =>
+        simp [toStmt, hop, hprim, Stmt.shape, treeShape, shapes_preserved cs hcs]
+theorem shapes_preserved : (cs : ScadList ν) → WellFormedList showNum cs →
+    (toStmts showNum cs).shapes = treeShapes showNum cs
+  | .nil, _ => by simp [toStmts, StmtList.shapes, treeShapes]
+  | .cons h t, ⟨h1, h2⟩ => by
+    simp [toStmts, StmtList.shapes, treeShapes, shape_preserved h h1, shapes_preserved t h2]
+end
+
+/-- a block `{ … }` is opened (and, since the text parses, closed) exactly for non-primitives -/
+theorem block_iff_not_primitive (op : ScadOp ν) (cs : ScadList ν) (h : WellFormed showNum (.mk op cs)) :
+    ((toStmt showNum (.mk op cs)).body.isSome = !op.isPrimitive) := by
+  obtain ⟨hh, _⟩ := h
+  cases hop : op.header showNum with
+  | none => rw [hop] at hh; simp at hh
+  | some hd => cases hprim : op.isPrimitive <;> simp [toStmt, hop, hprim, Stmt.body]
+end
+
+/-! non-vacuity: a concrete tree over `Nat` (printed in decimal) meets the hypotheses, including an
+operator with no children and an empty point list -/
+example : ∀ x : Nat, IsNumeral (natDigits x) = true := natDigits_numeral
+example : WellFormed natDigits
+    (Scad.node .union [Scad.node (.circle 3 none none (some 12)) [], Scad.node .hull [],
+      Scad.node (.polygon [] none 1) []]) := by
+  simp [WellFormed, WellFormedList, Scad.node, ScadList.ofList, ScadOp.header, ScadOp.isPrimitive,
+    ScadOp.strings]
 
 end ScadVerif.C01
